@@ -31,7 +31,7 @@ REQUIRED = [
     ("liquid/extra/tags/macro_tag.py", "CallNode.render_to_output"),
     ("liquid/ast.py", "Node.raise_for_disabled"),
 ]
-MIN_COUNTERS = {"copy_hook_checks": 200, "disabled_include_probes": 50, "disabled_include_probes_nested": 30, "variants_with_call_inside_caller_loop": 200}
+MIN_COUNTERS = {"copy_hook_checks": 200, "disabled_include_probes": 50, "disabled_include_probes_nested": 30, "variants_with_call_inside_caller_loop": 200, "argument_visibility_probes": 90, "nested_render_probes": 20}
 
 HOOK: dict[str, Any] = {"copies": 0, "leak": None}
 
@@ -129,7 +129,90 @@ def caller_src(variant: dict[str, Any], call: str, mid_loop: bool) -> str:
     return "".join(pre) + "|" + core_call + "|" + probes
 
 
+VISIBLE_CALLS = [
+    # (call, expected partial output given x='LIT', xs=['I1','I2'])
+    ("{% render 'p' with x %}", "[LIT||]"), ("{% render 'p' with x as v %}", "[|LIT|]"), ("{% render 'p' for xs %}", "[I1||][I2||]"), ("{% render 'p' for xs as v %}", "[|I1|][|I2|]"),
+    ("{% render 'p', a: 'K' %}", "[||K]"), ("{% render 'p' with x, a: x %}", "[LIT||LIT]"), ("{% render 'p' with x as v, a: 'K' %}", "[|LIT|K]"), ("{% render 'p' %}", "[||]"),
+    ("{% call 'm' x %}", "[LIT|D|]"), ("{% call 'm' x, 'Q' %}", "[LIT|Q|]"), ("{% call 'm' p1: x %}", "[|LIT|]"), ("{% call 'm' %}", "[|D|]"),
+]
+
+
+def judge_visible(ctx: core.Ctx, case: dict[str, Any]) -> None:
+    """The positive half of the clause: a rendered partial / called macro DOES see its explicit arguments and its bound variable -
+    whatever else is (or is not) in the render arguments and globals."""
+    call, expected = VISIBLE_CALLS[case["call_index"]]
+    src = "{% macro 'm' p0, p1: 'D' %}[{{ p0 }}|{{ p1 }}|{{ a }}]{% endmacro %}{% assign x = 'LIT' %}{% assign xs = 'I1,I2' | split: ',' %}" + call
+    cfg: dict[str, Any] = {"extra": True}
+    if case["env_globals"]:
+        cfg["globals"] = {"eg": 1}
+    env = drv.make_env(cfg, loader=DictLoader({"p": "[{{ p }}|{{ v }}|{{ a }}]"}), base=MonEnv)
+    o = drv.parse_and_render(env, src, dict(case["data"]), use_async=case.get("async", False))
+    ctx.count("argument_visibility_probes")
+    ctx.evaluations += 1
+    if not o.ok or o.value != expected:
+        empty = "no-render-arguments-and-no-globals" if not case["data"] and not case["env_globals"] else "with-globals"
+        ctx.violation(
+            f"{'macro' if 'call' in call else 'render'}:explicit-argument-or-bound-variable-not-visible:{empty}",
+            f"{call!r} (x='LIT', xs=['I1','I2']) rendered {o.brief()} with render arguments {case['data']} and environment globals {'set' if case['env_globals'] else 'unset'}; the partial/macro body prints its arguments and should give {expected!r}",
+        )
+        return
+    ctx.ok(("visible", case["call_index"], bool(case["data"]), case["env_globals"], case.get("async", False)), nontrivial=True)
+
+
+NESTED_OUTER = [
+    # how the outer partial / macro / block is entered; '@' is the variant's argument value
+    ("render-kwargs", "{% render 'mid', a: @, b: @ %}", {}),
+    ("render-with-alias", "{% assign ov = @ %}{% render 'mid' with ov as a %}", {}),
+    ("render-for", "{% assign os = @ | split: ',' %}{% render 'mid' for os as a %}", {}),
+    ("macro-arg", "{% macro 'mm' a, b %}«{% render 'q' %}»{% endmacro %}{% call 'mm' @, @ %}", {}),
+    ("extends-block", None, {}),
+]
+
+
+def judge_nested(ctx: core.Ctx, case: dict[str, Any]) -> None:
+    """An inner `render` reached from inside an outer partial, macro or inherited block: its output may depend on its own arguments and
+    on global data only - not on the arguments / locals of whatever rendered it."""
+    label, outer, _ = NESTED_OUTER[case["outer_index"]]
+    inner_call = case["inner_call"]
+    outs = []
+    for val in ("'V1'", "'V2'", None):
+        partials = {"q": "‹[a={{ a }}][b={{ b }}][bv={{ bv }}][g={{ g }}]›", "mid": "{% assign b = 'MIDLOCAL' %}«" + inner_call + "»"}
+        if label == "extends-block":
+            partials["base"] = "{% assign bv = " + (val or "'V0'") + " %}{% assign a = bv %}{% block blk %}{% endblock %}"
+            partials["child"] = "{% extends 'base' %}{% block blk %}«" + inner_call + "»{% endblock %}"
+            src = None
+        else:
+            src = outer.replace("@", val) if val is not None else outer.replace(", a: @, b: @", "").replace(" @, @", "").replace("@", "'V0'")
+        env = drv.make_env({"extra": True}, loader=DictLoader(partials), base=MonEnv)
+        if src is None:
+            t = drv.call(env.get_template, "child")
+            o = (drv.render_async(t.value, {"g": "G"}) if case.get("async") else drv.render(t.value, {"g": "G"})) if t.ok else t
+        else:
+            o = drv.parse_and_render(env, src, {"g": "G"}, use_async=case.get("async", False))
+        if not o.ok:
+            ctx.count("nested_probe_error:" + str(o.err_class))
+            return
+        outs.append(re.findall("‹(.*?)›", o.value, re.DOTALL))
+    ctx.count("nested_render_probes")
+    ctx.evaluations += 1
+    ref = outs[0][:1]
+    for got in outs[1:]:
+        if got[:1] != ref:
+            ctx.violation(
+                f"render:nested-render-sees-enclosing-{label}-arguments",
+                f"inner {inner_call!r} reached through {label}: its output is {outs[0][:1]} / {outs[1][:1]} / {outs[2][:1]} for three values of the enclosing arguments or locals (must be identical: it receives the same arguments and globals)",
+            )
+            return
+    ctx.ok(("nested", case["outer_index"], inner_call, case.get("async", False)), nontrivial=True)
+
+
 def judge(ctx: core.Ctx, case: dict[str, Any]) -> None:
+    if case["kind"] == "visible":
+        judge_visible(ctx, case)
+        return
+    if case["kind"] == "nested":
+        judge_nested(ctx, case)
+        return
     kind = case["kind"]
     body = body_src(case["body"])
     data = dict(case["globals"])
@@ -203,7 +286,8 @@ def judge(ctx: core.Ctx, case: dict[str, Any]) -> None:
         inc = "{% include 'q' %}"
         for w in wrappers:
             inc = WRAP[w].replace("@", inc)
-        env = drv.make_env({"extra": True}, loader=DictLoader({"p": "x" + inc, "q": "inner", "mid": "{% render 'p' %}"}), base=MonEnv)
+        env = drv.make_env({"extra": True}, loader=DictLoader({"p": "x" + inc, "q": "inner", "mid": "{% render 'p' %}", "pbase": "[{% block b %}{% endblock %}]",
+                                                               "pchild": "{% extends 'pbase' %}{% block b %}" + inc + "{% endblock %}"}), base=MonEnv)
         o = drv.parse_and_render(env, case.get("include_call") or "{% render 'p' %}", {"items": [1, 2]}, use_async=case.get("async", False))
         ctx.count("disabled_include_probes")
         if wrappers:
@@ -211,7 +295,7 @@ def judge(ctx: core.Ctx, case: dict[str, Any]) -> None:
         if o.ok or o.err_class != "DisabledTagError":
             ctx.evaluations += 1
             ctx.violation(
-                "render:include-not-disabled" + (":nested-in-block" if wrappers else ""),
+                "render:include-not-disabled" + (":inside-inherited-block" if "pchild" in str(case.get("include_call")) else ":nested-in-block" if wrappers else ""),
                 f"include inside a rendered partial ({'x' + inc!r}, called by {case.get('include_call')!r}) gave {o.brief()} instead of DisabledTagError",
             )
             return
@@ -279,12 +363,22 @@ def gen_case(rng) -> dict[str, Any]:
     wrappers = [rng.choice(list(WRAP)) for _ in range(nw)]
     return {"kind": kind, "call_kind": ck, "call": call, "body": gen_body(rng), "mid_loop": rng.random() < 0.5, "globals": globals_, "variants": variants,
             "probe_disabled": rng.random() < 0.25, "include_wrappers": wrappers,
-            "include_call": rng.choice(["{% render 'p' %}", "{% render 'p' for items %}", "{% render 'mid' %}", "{% for i in (1..2) %}{% render 'p' with i as v %}{% endfor %}"]),
+            "include_call": rng.choice(["{% render 'p' %}", "{% render 'p' for items %}", "{% render 'mid' %}", "{% for i in (1..2) %}{% render 'p' with i as v %}{% endfor %}", "{% render 'pchild' %}"]),
             "async": rng.random() < 0.3}
 
 
 def cases(ctx: core.Ctx):
     rng = ctx.rng("cases")
+    if ctx.shard == 0:
+        for i in range(len(VISIBLE_CALLS)):
+            for data in ({}, {"z": 1}):
+                for eg in (False, True):
+                    for a in (False, True):
+                        yield {"kind": "visible", "call_index": i, "data": data, "env_globals": eg, "async": a}
+        for oi in range(len(NESTED_OUTER)):
+            for inner in ("{% render 'q' %}", "{% render 'q', z: 1 %}", "{% render 'q' with g as zz %}", "{% if true %}{% render 'q' %}{% endif %}"):
+                for a in (False, True):
+                    yield {"kind": "nested", "outer_index": oi, "inner_call": inner, "async": a}
     first = gen_case(rng)
     first.update(kind="render", call="{% render 'p' %}", call_kind="plain", probe_disabled=True)
     yield first
